@@ -200,6 +200,15 @@ theorem swap_neighbours (l₁ l₂ : List Str) (s₁ s₂ : Str)
     Args.parseArgs (l₁ ++ s₁ :: s₂ :: l₂) = Args.parseArgs (l₁ ++ s₂ :: s₁ :: l₂) :=
   Args.swap_adjacent l₁ l₂ s₁ s₂ h hb
 
+/-- an option written in two arguments (`--name value`) moves as a pair: swapping the pair with a neighbouring one-token
+argument of another family changes nothing -/
+theorem swap_neighbours_two_args (l₁ l₂ : List Str) (n v s₂ : Str) (o : Args.Opt)
+    (hn : Args.findOpt n = some o) (hp : Args.plainName n = true) (hk : o.kind ≠ .flag) (hv : Args.isValue v = true)
+    (h₁ : Args.OneTokenEach l₁) (h₂ : Args.OneTokenEach (s₂ :: l₂))
+    (hf : Args.sameFamily (.opt o (some v)) (Args.lex s₂) = false) :
+    Args.parseArgs (l₁ ++ ('-' :: '-' :: n) :: v :: s₂ :: l₂) = Args.parseArgs (l₁ ++ s₂ :: ('-' :: '-' :: n) :: v :: l₂) :=
+  Args.swap_adjacent_two_args l₁ l₂ n v s₂ o hn hp hk hv h₁ h₂ hf
+
 /-- the one place where the position of an argument matters to clap itself: a bare optional-valued option takes the
 argument after it as its value unless that looks like an option (`--merge f.json` groups by the text `f.json`;
 `f.json --merge` and `--merge --unique` do not).  Found by the correspondence run when input files were
